@@ -1,2 +1,2 @@
 SPECIFICATION TSpec
-INVARIANTS ReplyIffValid ExactlyOne ToSender ReplyHeader NeverAnswersReply HistoryIndependence BoundedTraffic MCounted MRawReverse SReplies SPredicted SEcho SOther SPair SStage
+INVARIANTS ReplyIffValid ExactlyOne ToSender ReplyHeader NeverAnswersReply HistoryIndependence BoundedTraffic MCounted MRawReverse SReplies SPredicted SEcho SOther SPair SStage SStorePre SStorePost SAnc
